@@ -486,6 +486,9 @@ func checkCanonical1(run *core.Run, m *openfgav1.AuthorizationModel, r *rand.Ran
 	m1, e1 := transformer.TransformDSLToProto(plain)
 	m2, e2 := transformer.TransformDSLToProto(src)
 	run.Eval(2)
+	if !parsedFinite(run, c, m1, m2) {
+		return
+	}
 	if (e1 == nil) != (e2 == nil) || (e1 == nil && !proto.Equal(m1, m2)) {
 		run.Violation("source-variant-parses-differently", c, fmt.Sprint(e1), fmt.Sprint(e2)+"\n"+src)
 		return
